@@ -153,6 +153,8 @@ Definition parse_media (s : bytes) : perr + media :=
                           | None => (SExt, skip_until is_semi_plus r1)
                           end
                 end in
+              (* an extension subtype must not be empty ("text/;a=b", "text/+json"): "missing subtype" *)
+              if match sub with SExt => Nat.eqb (length r2) (length r1) | _ => false end then inl E415 else
               match r2 with
               | [] => inr (mkMedia top sub FNone None [] s)
               | _ =>
@@ -164,7 +166,9 @@ Definition parse_media (s : bytes) : perr + media :=
                           | [] => inl E415
                           | _ => match first_match mime_suffixes r3 0%N with
                                  | Some (i, r) => inr (FKnown i, r)
-                                 | None => inr (FExt, skip_until is_semi_plus r3)
+                                 | None => (* an extension suffix must not be empty ("text/plain+;a=b") *)
+                                           if Nat.eqb (length (skip_until is_semi_plus r3)) (length r3) then inl E415
+                                           else inr (FExt, skip_until is_semi_plus r3)
                                  end
                           end
                         else inr (FNone, r2)
